@@ -21,7 +21,9 @@ def run(chk):
     gen = exec_cases(chk, 60 if quick else 600, focus={"say": 8, "listen": 3}, salt=200)
     ill = exec_cases(chk, 30 if quick else 300, illtyped=True, salt=201)
     fixed = ["say 1\nsay 2\nsay x\nsay 3\n", "say 1\nsay\n", "say \"only\"", "", "\n\n", "listen to x\nsay x\nlisten to y\nsay y\nsay \"done\"\n",
-             "X is 5\nPut X times X times X into Y\nSay Y\n", "put 5 into x\n", "put -5 into x\nput \"a\nb\" into y\n", "say \"ünï\"\n", "else\n"]
+             "X is 5\nPut X times X times X into Y\nSay Y\n", "put 5 into x\n", "put -5 into x\nput \"a\nb\" into y\n", "say \"ünï\"\n", "else\n",
+             "Say \"one\r\ntwo\"\r\n", "Tommy says hello\r\nShout Tommy plus \"!\"\r\n", "say 1\r\nsay 2\r\n", "say 1\rsay 2\r", "X is 5\r\nif X\r\nsay X\r\n\r\nsay 0\r\n",
+             "\ufeffsay 1\n", "say \"tab\there\"\n", "say 1\n\n\n\n", "  say 1  \n", "say \"a\r\"\n", "Tommy says trailing  \nsay Tommy\n"]
     cases = [{"src": s, "stdin": "line one\nline two\n"} for s in fixed] + gen + ill
     stdin_variants = ["", "a\nb\n", "no newline", "ünï\n"]
     work = f"{C.BUILD}/work/C20"
@@ -39,7 +41,7 @@ def run(chk):
             chk.add_violation("CLI differs from the library: " + msg, dict(rep, oracle="cli-vs-library"))
     for i, c in enumerate(cases):
         path = f"{work}/p{i}.rock"
-        open(path, "w", encoding="utf-8").write(c["src"])
+        open(path, "w", encoding="utf-8", newline="").write(c["src"])      # newline="": the bytes of the program, untranslated
         lib = recs[i]["impl"].get("debug", "")
         if lib in ("timeout", "crash") or recs[i].get("discarded"):
             continue          # outside the step/size budget: not compared
